@@ -34,6 +34,7 @@ var (
 	vmDSStrict   = false // the server rejects offsets it did not issue (the library's own server parses a leading number and ignores the rest)
 	vmDSFailAppend = -1  // index of the Append request the server answers with 503 (-1: none)
 	vmDSAppends    = 0
+	vmDSLostAck    = -1 // index of the Append request the server carries out but answers with 502 (a gateway losing the acknowledgement)
 )
 
 type vmDSTransport struct{ base string }
@@ -78,6 +79,9 @@ func (t *vmDSTransport) Append(ctx context.Context, req transport.AppendRequest)
 		return nil, &transport.Error{Code: "UNAVAILABLE", Message: "service unavailable", StatusCode: 503}
 	}
 	s.msgs = append(s.msgs, json.RawMessage(req.Data))
+	if i == vmDSLostAck {
+		return nil, &transport.Error{Code: "UNAVAILABLE", Message: "bad gateway", StatusCode: 502}
+	}
 	return &transport.AppendResponse{NextOffset: vmDSOffset(len(s.msgs))}, nil
 }
 
